@@ -131,7 +131,19 @@ fn build(rng: &mut Rng, must: usize) -> Option<Built> {
     let cidx = |consts: &Vec<(u32, String, Vec<String>)>, id: u32| consts.iter().position(|c| c.0 == id).unwrap();
     for _ in 0..rng.range(1, 6) {
         let id = gen.fresh();
-        match rng.below(6) {
+        match rng.below(7) {
+            6 => {
+                // sampler constant: addressing mode, normalized (any non-zero literal is true), filter mode
+                // (the enumerant called `None` is left out: in Debug text it is indistinguishable from an empty Option)
+                let am: Vec<(String, u32)> = d.enum_values(K::SamplerAddressingMode).iter().filter(|(n, _)| n != "None").cloned().collect();
+                let fm = d.enum_values(K::SamplerFilterMode);
+                let (an, av) = am[rng.below(am.len())].clone();
+                let (fname, fv) = fm[rng.below(fm.len())].clone();
+                let norm = *rng.pick(&[0u32, 1, 1, 2, u32::MAX]);
+                let t = *rng.pick(&all_types);
+                insts.push(AInst::named("ConstantSampler", Some(t), Some(id), vec![AOp::w(K::SamplerAddressingMode, av), AOp::lit(norm), AOp::w(K::SamplerFilterMode, fv)]));
+                consts.push((id, "Sampler".into(), vec![an, (norm != 0).to_string(), fname]));
+            }
             0 => {
                 insts.push(AInst::named("ConstantTrue", Some(boolt), Some(id), vec![]));
                 consts.push((id, "Bool".into(), vec!["true".into()]));
